@@ -131,6 +131,31 @@ def n6_one_nonce_sequence_per_subkey(ctx, prog, bodies, rule="N6"):
     ctx.floor(rule, "stream-codec functions that derive a session subkey", 2, n)
 
 
+def n7_derived_key_on_every_path(ctx, prog, bodies, rule="N7"):
+    """N7: a direction of a VMess stream has two cipher states with counters of their own that both start at zero - the body cipher and the cipher of
+    the authenticated chunk length. They must never share a key; what separates them is the labelled KDF step the length cipher's key goes
+    through. In the function that builds a cipher state from a labelled derivation, that derivation must lie on *every* path to the
+    construction (it dominates it): an arm that skips it (e.g. for one of the algorithms) hands the body key to the second counter, and
+    chunk n's length and chunk n's body are sealed under one (key, nonce)."""
+    n = 0
+    for b in bodies:
+        if b.root != b.defp or "vmess" not in b.defp:
+            continue
+        fb = prog.flat(b.defp, stop=lambda cb: "::kdf::" in cb.defp, key="n7")
+        kdfs = [(blk, c, t) for (blk, c, t) in fb.calls() if "::kdf::" in c.target and last_seg(c.target).startswith("kdf")]
+        news = [(blk, c, t) for (blk, c, t) in fb.calls() if c.method == "new" and "Authenticator" in ((c.self_s or "") + c.target) and "vmess" in c.target]
+        if not kdfs or not news or "Authenticator" not in (b.local_ty(0) or ""):
+            continue
+        for (nb, nc, nt) in news:
+            n += 1
+            ok = any(fb.dominates(kb, nb) for (kb, _, _) in kdfs)
+            ctx.ob(rule, b.defp, "labelled-derivation-on-every-path-to-the-cipher-state", loc(nt["sp"]), ok,
+                   "the labelled key derivation dominates the construction of the cipher state" if ok else
+                   "the cipher state is constructed on a path that skips the labelled key derivation made on the other paths: on that path it is keyed with the key it was given "
+                   "(the body key), so two cipher states whose counters both start at zero work under one key and seal different plaintexts under the same (key, nonce)")
+    ctx.floor(rule, "cipher states built from a labelled derivation (VMess chunk-length cipher)", 1, n)
+
+
 def n5(ctx, prog, bodies):
     """N5: the per-session subkey binds the salt — the key material handed to blake3::derive_key is exactly `key || salt`.
     Accepted constructions: `[key, salt].concat()` (array of the two slices, the second one not a constant), or copies into a buffer
@@ -208,6 +233,7 @@ def run(ctx):
     bodies = [b for b in prog.prod_bodies() if "::_" not in b.defp]
     n5(ctx, prog, bodies)
     n6_one_nonce_sequence_per_subkey(ctx, prog, bodies)
+    n7_derived_key_on_every_path(ctx, prog, bodies)
     # ---------------- who-may-call -------------------------------------------------------------
     n_rng = 0
     for b in bodies:
